@@ -2,7 +2,7 @@
    correspondence check executes on both sides. Variables are indices into a
    list; every operation names its receiver and operands by index, so all
    aliasing shapes of the Go API are expressible. *)
-From Dec Require Export L3.Decimal L3.Cmp L3.Round L3.Arith.
+From Dec Require Export L3.Decimal L3.Cmp L3.Round L3.Arith L3.Convert L4.Gob.
 Open Scope Z_scope.
 
 Definition store := list Dec.
@@ -41,7 +41,25 @@ Inductive op :=
 | OCopy (z x : nat)
 | OSetPrec (z : nat) (p : Z)
 | OSetMode (z : nat) (m : mode)
-| OSetInf (z : nat) (sb : bool).
+| OSetInf (z : nat) (sb : bool)
+| OSetInt64 (z : nat) (x : Z)
+| OSetUint64 (z : nat) (x : Z)
+| OSetInt (z : nat) (x : Z)
+| OSetRat (z : nat) (num den : Z)
+| ONewDecimal (z : nat) (x e : Z)
+| OSetMantExp (z m : nat) (e : Z)
+| OMantExp (x : nat) (m : option nat)
+| OSetBitsExp (z : nat) (e : Z) (ws : list Z)
+| OBitsExp (x : nat)
+| OMinPrec (x : nat)
+| OIsInt (x : nat)
+| OInt64 (x : nat)
+| OUint64 (x : nat)
+| OInt (x : nat)
+| ORat (x : nat)
+| OGobEncode (x : nat)
+| OGobDecode (z : nat) (buf : list Z)
+| OGobRoundTrip (z x : nat).
 
 (* write the receiver back *)
 Definition put (s : store) (z : nat) (r : ores) : store * result :=
@@ -70,6 +88,50 @@ Definition step (s : store) (o : op) : store * result :=
   | OSetPrec z p => put s z (SetPrec (get s z) p)
   | OSetMode z m => put s z (SetMode (get s z) m)
   | OSetInf z sb => put s z (SetInf (get s z) sb)
+  | OSetInt64 z x => put s z (SetInt64 (get s z) x)
+  | OSetUint64 z x => put s z (SetUint64 (get s z) x)
+  | OSetInt z x => put s z (SetInt (get s z) x)
+  | OSetRat z n d => put s z (SetRat (get s z) n d)
+  | ONewDecimal z x e => put s z (NewDecimal x e)
+  | OSetMantExp z m e => put s z (SetMantExp (Nat.eqb z m) (get s z) (get s m) e)
+  | OMantExp x None => (s, res_ok [MantExp_exp (get s x)])
+  | OMantExp x (Some m) =>
+      let e := MantExp_exp (get s x) in
+      match MantExp_mant (Nat.eqb m x) (get s m) (get s x) with
+      | OkR d => (set s m d, res_ok [e])
+      | _ => (s, mkRes Crash [] [])
+      end
+  | OSetBitsExp z e ws => put s z (SetBitsExp (get s z) ws e)
+  | OBitsExp x =>
+      let d := get s x in
+      (s, res_ok (match dform d with Ffinite => exp d | _ => 0 end :: zlen (BitsExp_mant d) :: BitsExp_mant d))
+  | OMinPrec x => (s, res_ok [MinPrec (get s x)])
+  | OIsInt x => (s, res_ok [b2z (IsInt (get s x))])
+  | OInt64 x => let '(v, a) := Int64 (get s x) in (s, res_ok [v; acc_num a])
+  | OUint64 x => let '(v, a) := Uint64 (get s x) in (s, res_ok [v; acc_num a])
+  | OInt x =>
+      match Int (get s x) with
+      | (Some v, a) => (s, res_ok [1; v; acc_num a])
+      | (None, a) => (s, res_ok [0; 0; acc_num a])
+      end
+  | ORat x =>
+      match Rat (get s x) with
+      | (Some (n, d), a) => (s, res_ok [1; n; d; acc_num a])
+      | (None, a) => (s, res_ok [0; 0; 1; acc_num a])
+      end
+  | OGobEncode x => (s, mkRes Ok [] [GobEncode (get s x)])
+  | OGobDecode z buf =>
+      match GobDecode (get s z) buf with
+      | GobOk d => (set s z d, res_ok [0])
+      | GobErr d => (set s z d, res_ok [1])
+      | GobCrash => (s, mkRes Crash [] [])
+      end
+  | OGobRoundTrip z x =>
+      match GobDecode (get s z) (GobEncode (get s x)) with
+      | GobOk d => (set s z d, res_ok [0])
+      | GobErr d => (set s z d, res_ok [1])
+      | GobCrash => (s, mkRes Crash [] [])
+      end
   end.
 
 (* run a program, collecting the result and store after every step; stops at
